@@ -32,7 +32,7 @@ pub const REAL_COMPONENTS: &[&str] = &[
     "lsp-server Connection: initialize handshake, message loop, handle_shutdown",
     "crossbeam channels (capacity 0)",
     "std::fs on tmpfs with real kernel errors",
-    "codespan-reporting rendering (to /dev/null)",
+    "codespan-reporting rendering and println!/print! output (stdout and stderr of the worker are capture files that are read back per simulated process)",
     "encoding_rs decoding",
 ];
 pub const STUBBED_COMPONENTS: &[&str] = &[
@@ -40,7 +40,7 @@ pub const STUBBED_COMPONENTS: &[&str] = &[
     "OS randomness (getrandom served from the run's PRNG => hash iteration order)",
     "the editor (client actor)",
     "the concurrent file-system actor (storage faults at fs-points)",
-    "process exit status (Result of the entry function, as main returns it)",
+    "process exit status (Result of the entry function, as main returns it; cross-checked on a sample against the shipped binary)",
     "readdir order (permuted by the scheduler)",
 ];
 
@@ -191,6 +191,9 @@ fn enter_sandbox(dir: &str) -> Result<(), String> {
         if libc::chdir(c"/".as_ptr()) != 0 {
             return Err("chdir(/) failed".into());
         }
+    }
+    if !seam::redirect_stdio_to_capture_files() {
+        return Err("cannot create the stdout/stderr capture files".into());
     }
     Ok(())
 }
